@@ -47,6 +47,7 @@ def main():
     spec = json.load(open(sys.argv[1]))
     from yalafi import tex2txt
     out = []
+    shared = {}
     for i in spec['order']:
         it = spec['items'][i]
         before = fingerprint()
@@ -57,6 +58,18 @@ def main():
             with contextlib.redirect_stderr(err):
                 opts = dict(it['opts'])
                 opts.setdefault('pack', '*')
+                # replacement / definition files are read once per process and the same object is handed to
+                # every call, as yalafi.shell does with --replace / --define
+                if 'repl_file' in opts:
+                    fn = opts.pop('repl_file')
+                    if ('r', fn) not in shared:
+                        shared[('r', fn)] = tex2txt.read_replacements(fn, 'utf-8')
+                    opts['repl'] = shared[('r', fn)]
+                if 'defs_file' in opts:
+                    fn = opts.pop('defs_file')
+                    if ('d', fn) not in shared:
+                        shared[('d', fn)] = tex2txt.read_definitions(fn, 'utf-8')
+                    opts['defs'] = shared[('d', fn)]
                 res = tex2txt.tex2txt(it['src'], tex2txt.Options(**opts), multi_language=it['ml'])
         except BaseException as e:      # noqa
             exc = '%s: %s' % (type(e).__name__, e)
